@@ -11,3 +11,9 @@ mod c01;
 mod c08;
 #[cfg(kani)]
 mod c04;
+#[cfg(kani)]
+mod c18;
+#[cfg(kani)]
+mod c13;
+#[cfg(kani)]
+mod c19;
